@@ -675,8 +675,10 @@ def to_matched_score(
     snote_ids = []
     for i in sort_order:
         sn, n = note_pairs[int(i)]
-        sn_on, sn_off = [sn["onset_beat"], sn["onset_beat"] + sn["duration_beat"]]
-        sn_dur = sn_off - sn_on
+        # (the duration as the score states it: onset + duration - onset in
+        # single precision loses digits for notes late in a long piece)
+        sn_on = sn["onset_beat"]
+        sn_dur = sn["duration_beat"]
         # hack for notes with negative (or no) duration; short notes keep
         # the duration they were played with
         n_dur = n["duration_sec"] if n["duration_sec"] > 0 else 60 / 200 * 0.25
